@@ -263,36 +263,40 @@ func c7Wrappers(c *Ctx) {
 		}
 		recv, fields := fn.Params[0], fn.Params[1]
 		st := named.Underlying().(*types.Struct)
-		got := map[string]ssa.Value{}
-		var alloc ssa.Value
-		for _, s := range FieldStoresOf(fn, named) {
-			got[s.Field] = s.Instr.Val
-			alloc = s.Addr.X
-		}
+		got := BuiltFields(fn, named)
 		var missing, wrong []string
 		for i := 0; i < st.NumFields(); i++ {
 			f := st.Field(i).Name()
-			v, ok := got[f]
+			bf, ok := got[f]
 			if !ok {
 				missing = append(missing, f)
 				continue
 			}
 			if f == w.coreField {
-				call, isCall := Strip(v).(*ssa.Call)
-				okc := isCall && IsCallTo(call, "(go.uber.org/zap/zapcore.Core).With") && Desc(Args(call)[0]) == recv.Name()+"."+f && Args(call)[1] == ssa.Value(fields)
+				var call *ssa.Call
+				if bf.Val != nil {
+					call, _ = Strip(bf.Val).(*ssa.Call)
+				}
+				okc := call != nil && IsCallTo(call, "(go.uber.org/zap/zapcore.Core).With") && Desc(Args(call)[0]) == recv.Name()+"."+f && Args(call)[1] == ssa.Value(fields)
 				if !okc {
-					wrong = append(wrong, f+"="+Desc(v))
+					wrong = append(wrong, f+"="+bf.Desc)
 				}
 				continue
 			}
-			if Desc(v) != recv.Name()+"."+f {
-				wrong = append(wrong, f+"="+Desc(v))
+			if bf.Desc != recv.Name()+"."+f {
+				wrong = append(wrong, f+"="+bf.Desc)
 			}
 		}
 		c.Check(len(missing) == 0 && len(wrong) == 0, "R7.4", fn.String(), "rewrap-complete", fn.Pos(), "With builds a new %s with %s = wrapped.With(fields) and every other field copied from the receiver (left at zero: %v; not a plain copy: %v) — a forgotten field silently resets e.g. the sampler's shared counters or hook", w.name, w.coreField, missing, wrong)
 		okRet := false
 		for _, r := range Returns(fn) {
-			okRet = alloc != nil && Strip(RetVals(r)[0]) == Strip(alloc)
+			rv := RetVals(r)[0]
+			if mi, isMI := rv.(*ssa.MakeInterface); isMI {
+				n, isN := types.Unalias(deref(mi.X.Type())).(*types.Named)
+				okRet = isN && n.Origin() == named.Origin()
+			} else {
+				okRet = false
+			}
 		}
 		c.Check(okRet, "R7.4", fn.String(), "returns-own-type", fn.Pos(), "the derived core is again a %s", w.name)
 	}
